@@ -84,6 +84,10 @@ Shapes(k, st) ==
                Slot(Root, k, "Y", RefC(R(Root, A1, k, "a~0b", st)))>>, R(Root, A1, k, "a~1b", st), k)],
     [shape |-> "escaped_missing",   \* only the "/" sibling exists: the reference to the literal "~1" name designates nothing
      u |-> U(<<Slot(A1, k, "a/b", Conc("S", <<>>))>>, R(Root, A1, k, "a~1b", st), k)],
+    [shape |-> "crossdoc_local",   \* root#A -> a.json#V -> root#B -> (local) root#C, while a.json has a C of its own
+     u |-> U(<<Slot(Root, k, "A", RefC(R(Root, A1, k, "V", st))), Slot(A1, k, "V", RefC(R(A1, Root, k, "B", st))),
+               Slot(Root, k, "B", RefC(R(Root, Root, k, "C", st))), Slot(Root, k, "C", Conc("rootC", <<>>)),
+               Slot(A1, k, "C", Conc("extC", <<>>))>>, R(Root, Root, k, "A", st), k)],
     [shape |-> "sameroot", u |-> U(<<Slot(Root, k, "X", Conc("X", <<>>))>>, R(Root, Root, k, "X", st), k)]}
    \cup (IF st \in {"schemeless", "https"}       \* another host, but the very path of the root document
          THEN {[shape |-> "otherhost_samepath",
@@ -121,6 +125,12 @@ Shapes(k, st) ==
       [shape |-> "collision", site |-> s.site,      \* two different files whose default internalised names coincide
        u |-> U(<<Slot(<<"r", "sub", "a.json">>, k, "X", Conc("X", <<>>)), Slot(<<"r", "sub_a.json">>, k, "X", Conc("X2", <<>>)),
                  Slot(Root, k, "V", RefC(R(Root, <<"r", "sub_a.json">>, k, "X", st)))>>, R(Root, <<"r", "sub", "a.json">>, k, "X", st), k)],
+      [shape |-> "childdeep", site |-> s.site,     \* first hop into a sub-directory, the child reference relative to THAT directory
+       u |-> U(<<Slot(B1, k, "X", Conc("X", <<Ch(s.site, s.kind, R(B1, C1, s.kind, "Y", st))>>)),
+                 Slot(C1, s.kind, "Y", Conc("Y", <<>>))>>, R(Root, B1, k, "X", st), k)],
+      [shape |-> "childdeep_whole", site |-> s.site,   \* the same with a whole-file child reference
+       u |-> U(<<Slot(B1, k, "X", Conc("X", <<Ch(s.site, s.kind, RW(B1, <<"r", "sub", "deep", "wy.json">>, st))>>)),
+                 Slot(<<"r", "sub", "deep", "wy.json">>, s.kind, "", Conc("WY", <<>>))>>, R(Root, B1, k, "X", st), k)],
       [shape |-> "rootchild", site |-> s.site,      \* a root component with a child site pointing out
        u |-> U(<<Slot(Root, k, "X", Conc("X", <<Ch(s.site, s.kind, R(Root, B1, s.kind, "Y", st))>>)),
                  Slot(B1, s.kind, "Y", Conc("Y", <<>>))>>, R(Root, Root, k, "X", st), k)]}
@@ -132,7 +142,17 @@ Shapes(k, st) ==
                  Slot(Root, k, "Acc", Conc("Acc", <<Ch("properties", k, [path |-> Spell(Root, W1, st), frag |-> <<"#inl", "properties">>])>>)),
                  Slot(Root, k, "Rec", RefC(RW(Root, W1, st)))>>, R(Root, Root, k, "Acc", st), k)]}
      \cup
-     {[shape |-> "wholeself2",       \* a whole-file schema referring to its own file from two places
+     {[shape |-> "wholecycle2_via",  \* whole-file schemas: page -> node -> owner -> node
+       u |-> U(<<Slot(<<"r", "sub", "p.json">>, k, "", Conc("P", <<Ch("items", k, RW(<<"r", "sub", "p.json">>, <<"r", "sub", "n.json">>, st))>>)),
+                 Slot(<<"r", "sub", "n.json">>, k, "", Conc("N", <<Ch("properties", k, RW(<<"r", "sub", "n.json">>, <<"r", "sub", "o.json">>, st))>>)),
+                 Slot(<<"r", "sub", "o.json">>, k, "", Conc("O", <<Ch("items", k, RW(<<"r", "sub", "o.json">>, <<"r", "sub", "n.json">>, st))>>))>>,
+               RW(Root, <<"r", "sub", "p.json">>, st), k)],
+      [shape |-> "samename_twodirs", \* item.json beside the root and another item.json beside the file that refers to it
+       u |-> U(<<Slot(Root, k, "V", RefC(RW(Root, <<"r", "item.json">>, st))), Slot(<<"r", "item.json">>, k, "", Conc("I1", <<>>)),
+                 Slot(Root, k, "Acc", RefC(RW(Root, <<"r", "catalog", "list.json">>, st))),
+                 Slot(<<"r", "catalog", "list.json">>, k, "", Conc("L", <<Ch("items", k, RW(<<"r", "catalog", "list.json">>, <<"r", "catalog", "item.json">>, st))>>)),
+                 Slot(<<"r", "catalog", "item.json">>, k, "", Conc("I2", <<>>))>>, R(Root, Root, k, "Acc", st), k)],
+      [shape |-> "wholeself2",       \* a whole-file schema referring to its own file from two places
        u |-> U(<<Slot(W1, k, "", Conc("W", <<Ch("properties", k, RW(W1, W1, st)), Ch("items", k, RW(W1, W1, st))>>))>>, RW(Root, W1, st), k)],
       [shape |-> "wholeself2_via",   \* the same, entered from another external schema
        u |-> U(<<Slot(W1, k, "", Conc("W", <<Ch("properties", k, RW(W1, W1, st)), Ch("items", k, RW(W1, W1, st))>>)),
@@ -179,7 +199,9 @@ PathItemShapes(st) ==
 (* universes of a run are loaded one after the other in one process, each from its own directory  *)
 (* uri_remote: LoadFromURI of https://root.example/r/openapi.json; the reader serves that host     *)
 (* from the universe's files, so a relative reference must be asked for at that host again        *)
-Entries == {"file_abs", "file_rel", "datapath", "file_rel_default", "uri_remote"}
+(* file_abs_reuse: the Loader first fails to load a copy of the root document placed where none of  *)
+(* the external files exist, then loads the real one: a used Loader must behave like a fresh one    *)
+Entries == {"file_abs", "file_rel", "datapath", "file_rel_default", "uri_remote", "file_abs_reuse"}
 
 QuickSlice(sh, st, e, pos) ==
    \/ (st \in {"plain", "abspath", "http"} /\ e = "file_abs")
@@ -189,6 +211,7 @@ QuickSlice(sh, st, e, pos) ==
    \/ (sh.shape \in {"child", "chain3", "diamond"} /\ e = "file_abs" /\ pos = "op")
    \/ (sh.shape \in {"direct", "child", "pi_direct", "pi_wholefile", "pi_child"} /\ st = "plain" /\ pos = "op")
    \/ (sh.shape \in {"direct", "chain3", "wholefile"} /\ e = "file_rel_default" /\ pos = "op")
+   \/ (sh.shape \in {"direct", "chain3", "wholefile", "child", "diamond", "selfcycle", "crossdoc_local"} /\ e = "file_abs_reuse" /\ st = "plain")
    \/ (sh.shape \in {"direct", "chain3", "wholefile", "child", "backref"} /\ e = "uri_remote" /\ st \in {"plain", "updown"} /\ pos = "op")
 
 CONSTANT Allows      \* settings of IsExternalRefsAllowed to generate
